@@ -91,7 +91,11 @@ static inline int par_main(int argc, char** argv, case_fn fn) {
     while (std::getline(in, line)) {
         if (line.empty() || line[0] == '#') continue;
         Toks t(line); std::string cid = t.next();
-        try { fn(cid, t); }
+        try { fn(cid, t);
+              // VERIF_DRAIN=1: after every case look for messages that were sent but never received
+              static int drain = getenv("VERIF_DRAIN") ? atoi(getenv("VERIF_DRAIN")) : 0;
+              if (drain) { int n = drain_stray(), mx = 0; MPI_Allreduce(&n, &mx, 1, MPI_INT, MPI_MAX, MPI_COMM_WORLD);
+                  if (mx > 0) { std::ostringstream q; q << n; emit_all(cid, "STRAYMSG", q.str()); } } }
         catch (std::exception& e) { printf("%s ERR@%d %s\n", cid.c_str(), g_rank, e.what()); fflush(stdout); MPI_Abort(MPI_COMM_WORLD, 3); }
     }
     MPI_Finalize(); return 0;
